@@ -62,7 +62,7 @@ func configs14(tier string) []xplore.Config {
 	// the old incarnation must have been announced before that update
 	out = append(out, xplore.Config{Name: "X=t1 W(t1)=remove || W'(t1)=add;upd a/b W(t2)=upd a/b (no leaf of the re-added target may be missing)", Bound: bound, Data: cfg14{w1: []wop{{"remove", ""}}, w2: []wop{{"upd", "a/b"}}, w1b: []wop{{"add", ""}, {"upd", "a/b"}}, missingOnly: true}})
 	for _, uo := range []bool{false, true} {
-		out = append(out, xplore.Config{Name: fmt.Sprintf("X=t1 updates_only=%v W(t1)=remove W(t2)=upd a/b, a client subscribed below X's path leaves first", uo), Bound: bound, Data: cfg14{w1: []wop{{"remove", ""}}, w2: []wop{{"upd", "a/b"}}, updatesOnly: uo, nestedLeaver: true}})
+		out = append(out, xplore.Config{Name: fmt.Sprintf("X=t1 updates_only=%v W(t1)=remove W(t2)=upd a/b, a client subscribed below X's path leaves first", uo), Bound: bound - 1, Data: cfg14{w1: []wop{{"remove", ""}}, w2: []wop{{"upd", "a/b"}}, updatesOnly: uo, nestedLeaver: true}})
 	}
 	// an update for t1 still in flight (inside the change feed) while another
 	// goroutine removes (and re-adds) t1, then - everything quiet - one more
